@@ -258,10 +258,14 @@ fn visit_tcp(
             WSCALE => {
                 olayout.push(TcpOption::Ws);
 
-                wscale = Some(data[0]);
+                // a truncated option (length byte 2, or cut off by the end of the header) has no
+                // scale byte
+                if let Some(&scale) = data.first() {
+                    wscale = Some(scale);
 
-                if data[0] > 14 {
-                    quirks.push(Quirk::ExcessiveWindowScaling);
+                    if scale > 14 {
+                        quirks.push(Quirk::ExcessiveWindowScaling);
+                    }
                 }
             }
             SACK_PERMITTED => {
